@@ -559,6 +559,8 @@ class Run:
         hist = core.history[h0:]
         datas = core.data_in[d0:]
         statuses = core.status_sent[st0:]
+        # statuses of the call's own commands (the host's packet-size query may be refused: it legally falls back)
+        own_statuses = [st for st, cx in zip(statuses, core.status_ctx[st0:]) if not (cx == (s.md.C_GET_PROPERTY, 11) and not (spec.name == "get_property" and op.get("tag") == 11))]
         if not (spec.name == "get_property" and op.get("tag") == 11):
             # the host may query the max packet size whenever it likes (once per object today; a refactoring that
             # asks again is protocol-legal): such queries are not part of the call's effect
@@ -613,6 +615,10 @@ class Run:
             # reset documents "no response" as success (the device resets before answering), so under a
             # fault its True says nothing about the device; it is judged in the fault-free configuration only
             self.check_success(s, spec, outcome[1], hist, datas, where, exact=not (listed_fault or tainted))
+            if not tainted and spec.expect_ret[0] not in ("listing", "any") and not spec.skip_status_mirror and any(st != 0 for st in own_statuses):
+                # whatever else happened, the device answered one of this call's commands with an error status (the
+                # response was built and sent): a call that reports success has lost it
+                self.violation("wrong-success", spec.name + ":device-error-status-lost", f"{where}: reported success (status_code 0) although the device answered with the status words {own_statuses}")
         if not listed_fault and not extra_fault and not tainted:
             self.check_exact(s, spec, outcome, hist, datas, statuses, status_code, where)
 
